@@ -218,6 +218,185 @@ theorem drain_fifo (m : Machine) (u : UEnv) : ∀ (budget : Nat) (s : St), Drain
         ih _ hc, syncMacro_queue]
       simp
 
+-- the events queued when a drain starts (repair of F10) ---------------------------------------------------------------
+theorem drainCut_cons (m : Machine) (u : UEnv) (budget : Nat) (s : St) (q : QEv) (rest : List QEv)
+    (hq : s.queue = q :: rest) (hrun : s.status = "running") :
+    Term.drainCut m u (budget + 1) s =
+      if (syncMacro m u q.ev { s with queue := rest }).err.isSome = true then false
+      else Term.drainCut m u budget (syncMacro m u q.ev { s with queue := rest }) := by
+  cases s with
+  | mk cfg hist queue status trace err ctx rd errors =>
+    simp only at hq hrun
+    subst hq; subst hrun
+    simp only [Term.drainCut, syncMacro, ne_eq, not_true_eq_false, if_false]
+    rfl
+
+theorem drainCut_nil (m : Machine) (u : UEnv) (budget : Nat) (s : St) (hq : s.queue = []) :
+    Term.drainCut m u (budget + 1) s = false := by
+  cases s with
+  | mk cfg hist queue status trace err ctx rd errors =>
+    simp only at hq
+    subst hq
+    simp only [Term.drainCut]
+
+theorem drainCut_not_running (m : Machine) (u : UEnv) (budget : Nat) (s : St) (h : s.status ≠ "running") :
+    Term.drainCut m u (budget + 1) s = false := by
+  cases hq : s.queue with
+  | nil => exact drainCut_nil m u budget s hq
+  | cons q rest =>
+    cases s with
+    | mk cfg hist queue status trace err ctx rd errors =>
+      simp only at hq h
+      subst hq
+      simp only [Term.drainCut, ne_eq, h, not_false_eq_true, if_true]
+
+theorem drainSteps_cons (m : Machine) (u : UEnv) (budget : Nat) (s : St) (q : QEv) (rest : List QEv)
+    (hq : s.queue = q :: rest) (hrun : s.status = "running") :
+    Term.drainSteps m u (budget + 1) s =
+      if (syncMacro m u q.ev { s with queue := rest }).err.isSome = true then 1
+      else 1 + Term.drainSteps m u budget (syncMacro m u q.ev { s with queue := rest }) := by
+  cases s with
+  | mk cfg hist queue status trace err ctx rd errors =>
+    simp only at hq hrun
+    subst hq; subst hrun
+    simp only [Term.drainSteps, syncMacro, ne_eq, not_true_eq_false, if_false]
+    rfl
+
+/-- the instrumented step counter of C13 counts exactly the received events -/
+theorem drainLog_length (m : Machine) (u : UEnv) : ∀ (budget : Nat) (s : St),
+    (drainLog m u budget s).length = Term.drainSteps m u budget s := by
+  intro budget
+  induction budget with
+  | zero => intro s; rfl
+  | succ n ih =>
+    intro s
+    cases hq : s.queue with
+    | nil =>
+      rw [drainLog_nil m u n s hq]
+      cases s with
+      | mk cfg hist queue status trace err ctx rd errors =>
+        simp only at hq; subst hq; simp only [Term.drainSteps]; rfl
+    | cons q rest =>
+      by_cases hrun : s.status = "running"
+      · rw [drainLog_cons m u n s q rest hq hrun, drainSteps_cons m u n s q rest hq hrun]
+        split
+        · rfl
+        · rw [List.length_cons, ih]; omega
+      · rw [drainLog_not_running m u _ s hrun]
+        cases s with
+        | mk cfg hist queue status trace err ctx rd errors =>
+          simp only at hq hrun
+          subst hq
+          simp only [Term.drainSteps, ne_eq, hrun, not_false_eq_true, if_true]; rfl
+
+/-- **the events queued when a drain starts are never cut off by the budget.** `init` is a prefix of the queue
+    (what was queued when the drain started; `more` is whatever was enqueued since) and the budget covers it.
+    Then (1) the first events the drain receives ARE the events of `init`, in queue order, none skipped, none
+    twice — as many of them as the drain receives at all; (2) a drain that returns with the interpreter
+    still "running" and without raising has received ALL of `init`; (3) a drain that raises (a macrostep
+    failed: the sync engine aborts the drain) leaves the part of `init` not yet received in the queue, in
+    order, at its head. (The remaining way out: the machine completed / was stopped — the status gate of the
+    drain then drops what is queued, as `send()` drops later events.) -/
+theorem drain_initial (m : Machine) (u : UEnv) : ∀ (init : List QEv) (budget : Nat) (s : St) (more : List QEv),
+    s.queue = init ++ more → init.length ≤ budget →
+    (drainLog m u budget s).take init.length = (init.map (·.ev)).take (drainLog m u budget s).length ∧
+    ((drainLoop m u budget s).err = none → (drainLoop m u budget s).status = "running" →
+      init.length ≤ (drainLog m u budget s).length) ∧
+    (s.status = "running" → (drainLoop m u budget s).err ≠ none →
+      init.drop (drainLog m u budget s).length <+: (drainLoop m u budget s).queue) := by
+  intro init
+  induction init with
+  | nil =>
+    intro budget s more _ _
+    exact ⟨by simp, fun _ _ => Nat.zero_le _, fun _ _ => by simp⟩
+  | cons q init' ih =>
+    intro budget s more hq hB
+    obtain ⟨b, rfl⟩ : ∃ b, budget = b + 1 := ⟨budget - 1, by simp only [List.length_cons] at hB; omega⟩
+    have hq' : s.queue = q :: (init' ++ more) := by rw [hq]; rfl
+    have hB' : init'.length ≤ b := by simp only [List.length_cons] at hB; omega
+    by_cases hrun : s.status = "running"
+    · rw [drainLog_cons m u b s q _ hq' hrun, drainLoop_cons m u b s q _ hq' hrun]
+      have hsq : (syncMacro m u q.ev { s with queue := init' ++ more }).queue =
+          init' ++ (more ++ raisedBy m u q.ev { s with queue := init' ++ more }) := by
+        rw [syncMacro_queue]; exact List.append_assoc _ _ _
+      by_cases herr : (syncMacro m u q.ev { s with queue := init' ++ more }).err.isSome = true
+      · rw [if_pos herr, if_pos herr]
+        refine ⟨by simp, fun h => ?_, fun _ _ => ?_⟩
+        · rw [h] at herr; exact absurd herr (by simp)
+        · simp only [List.length_cons, List.length_nil, Nat.zero_add, List.drop_succ_cons, List.drop_zero]
+          rw [hsq]; exact List.prefix_append _ _
+      · rw [if_neg herr, if_neg herr]
+        obtain ⟨i1, i2, i3⟩ := ih b _ _ hsq hB'
+        refine ⟨?_, fun h1 h2 => ?_, fun _ h => ?_⟩
+        · simp only [List.length_cons, List.take_succ_cons, List.map_cons]
+          rw [i1]
+        · have := i2 h1 h2
+          simp only [List.length_cons]; omega
+        · simp only [List.length_cons, List.drop_succ_cons]
+          by_cases hr' : (syncMacro m u q.ev { s with queue := init' ++ more }).status = "running"
+          · exact i3 hr' h
+          · exfalso
+            apply h
+            cases b with
+            | zero =>
+              rw [drainLoop_zero]
+              have : (syncMacro m u q.ev { s with queue := init' ++ more }).err = none := by
+                cases hx : (syncMacro m u q.ev { s with queue := init' ++ more }).err with
+                | none => rfl
+                | some _ => rw [hx] at herr; exact absurd rfl herr
+              split <;> exact this
+            | succ b =>
+              rw [drainLoop_not_running m u b hr']
+              have : (syncMacro m u q.ev { s with queue := init' ++ more }).err = none := by
+                cases hx : (syncMacro m u q.ev { s with queue := init' ++ more }).err with
+                | none => rfl
+                | some _ => rw [hx] at herr; exact absurd rfl herr
+              split <;> exact this
+    · rw [drainLog_not_running m u _ s hrun, drainLoop_not_running m u b hrun]
+      refine ⟨by simp, fun _ h2 => ?_, fun h => absurd h hrun⟩
+      exfalso; apply hrun
+      split at h2 <;> exact h2
+
+/-- **a drain whose budget is exhausted with events still queued has received every event that was queued
+    when it started and `budget - init.length` more**: what the cut discards was enqueued while draining -/
+theorem drainCut_steps (m : Machine) (u : UEnv) : ∀ (budget : Nat) (s : St),
+    Term.drainCut m u budget s = true → (drainLog m u budget s).length = budget := by
+  intro budget s hc
+  rw [drainLog_length]
+  have h1 := Term.drainSteps_le m u budget s
+  by_cases hlt : Term.drainSteps m u budget s < budget
+  · rw [Term.drainCut_false_of_steps_lt m u budget s hlt] at hc; exact absurd hc (by simp)
+  · omega
+
+/-- **a drain in which at most `budget - queue length` events are enqueued while draining is not cut**
+    (`drainRaised`: the events the macrosteps of this drain append, over all events processed) -/
+theorem drainCut_false_of_raised (m : Machine) (u : UEnv) : ∀ (budget : Nat) (s : St),
+    s.queue.length + (drainRaised m u budget s).length ≤ budget → Term.drainCut m u budget s = false := by
+  intro budget
+  induction budget with
+  | zero =>
+    intro s h
+    have : s.queue = [] := List.length_eq_zero_iff.1 (by omega)
+    simp [Term.drainCut, this]
+  | succ n ih =>
+    intro s h
+    cases hq : s.queue with
+    | nil => exact drainCut_nil m u n s hq
+    | cons q rest =>
+      by_cases hrun : s.status = "running"
+      · rw [drainCut_cons m u n s q rest hq hrun]
+        rw [drainRaised_cons m u n s q rest hq hrun, hq] at h
+        split
+        · rfl
+        · rename_i herr
+          rw [if_neg herr] at h
+          apply ih
+          rw [syncMacro_queue]
+          simp only [List.length_append, List.length_cons, List.length_map] at h ⊢
+          have : ({ s with queue := rest } : St).queue.length = rest.length := rfl
+          omega
+      · exact drainCut_not_running m u n s hrun
+
 -- what a drain writes -------------------------------------------------------------------------------------------------
 /-- a record written during the macrostep of `e`: by a transition taken for `e`, or by an eventless
     (`always`) transition while settling -/
